@@ -145,6 +145,7 @@ func TestVerifC17VcJwt(t *testing.T) {
 					key, ok := source[kid]
 					verd["keyfound"] = ok
 					if ok {
+						verd["fits"] = tokenV2.VAlgFitsKey(info.Sigs[0].Alg, key)
 						_, err := jwt.ParseString(v.Tok, jwt.WithKey(jwa.SignatureAlgorithm(info.Sigs[0].Alg), key), jwt.WithVerify(true))
 						verd["verified"] = err == nil
 					}
